@@ -339,6 +339,39 @@ def rule_p5(ctx, F):
         ctx.ok("P5", "run_tests:correction-fields-from-the-example", "all %d corrections take name, attribute text and delimiter lengths from the fields of one Example entry" % len(calls))
 
 
+def rule_p6(ctx, F):
+    """P6: the number of `=` on a header's opening line is recorded (the writer re-emits it on both lines) and never
+    decides anything: which line closes the header depends only on its being a `=` delimiter line with the file's suffix.
+    If the closing line had to be as long as the opening one, a hand-written header whose two lines differ is not closed
+    where the user closed it — the test is swallowed or the file is rejected, and --update rewrites the rest."""
+    from rsrules import deep_text
+    fn = ctx.need_fn(F, "test::parse_header", "P6")
+    if not fn:
+        return
+    rec = [f["e"] for pt, e in fn.points() for x in own_walk(e) if x.get("k") == "agg" and x.get("adt", "").endswith("PendingTest") for f in x.get("fields", []) if f["f"] == "header_delim_len"]
+    if not rec:
+        ctx.bad("P6", "parse_header:records-opening-length", "parse_header no longer records the opening line's delimiter length in PendingTest.header_delim_len")
+        return
+    want = deep_text(fn, rec[0], user=True)
+    if "parse_delimiter_line(" not in want or "start_line" not in want:
+        ctx.bad("P6", "parse_header:records-opening-length", "PendingTest.header_delim_len is `%s`, not the delimiter length parsed from the opening line" % want[:100])
+        return
+    ctx.ok("P6", "parse_header:records-opening-length", "PendingTest.header_delim_len is the length parsed from lines[start_line]")
+    conds = 0
+    for b in fn.blocks.values():
+        c = fn.cond(b.id)
+        if c is None:
+            continue
+        conds += 1
+        t = deep_text(fn, c, user=True)
+        if want in t:
+            ctx.bad("P6", "parse_header:opening-length-decides-nothing", "parse_header branches on the opening line's `=` count (`%s`): a header whose closing line is shorter or longer than its opening line is no "
+                    "longer closed there, so the test is lost or merged into its neighbour" % t[:140], {"site": fn.loc((b.id, 0))})
+            return
+    ctx.floor("branch conditions in parse_header", conds, 20)
+    ctx.ok("P6", "parse_header:opening-length-decides-nothing", "none of parse_header's %d branch conditions reads the opening line's delimiter length" % conds)
+
+
 def rule_p2(ctx, F):
     """P2: a corpus file is rewritten only from the *complete* list of its tests: write_tests is reached
     only after the loop over the group's children ran to exhaustion (a fail-fast stop must leave the
@@ -638,6 +671,7 @@ def run(ctx):
     rule_p3(ctx, F)
     rule_p4(ctx, F)
     rule_p5(ctx, F)
+    rule_p6(ctx, F)
     return ctx.finish(
         "Field-flow, taint and path-counting rules over rustc MIR of crates/cli/src/test.rs: each TestCorrection is built from the entry's own name/input/attributes/delimiter lengths; "
         "the writer reads every field; with --update each Example path to Ok(true) records exactly one correction; the recognised delimiter suffix must reach the entry. "
